@@ -42,6 +42,38 @@ instance : Wire Float where
     | _ => Reader.fail
   wr v := ["x" ++ toHex16 v.toBits.toNat]
 
+/-- exact value of the binary64 with bit pattern `n` (finite) -/
+def ratOfBits (n : Nat) : Rat :=
+  let neg : Bool := n / 2 ^ 63 % 2 == 1
+  let ef : Nat := n / 2 ^ 52 % 2048
+  let mf : Nat := n % 2 ^ 52
+  let mag : Rat :=
+    if ef == 0 then ((mf : Nat) : Rat) / (((2 : Nat) ^ 1074 : Nat) : Rat)
+    else
+      let m : Nat := 2 ^ 52 + mf
+      if 1075 ≤ ef then ((m * 2 ^ (ef - 1075) : Nat) : Rat) else ((m : Nat) : Rat) / (((2 : Nat) ^ (1075 - ef) : Nat) : Rat)
+  if neg then -mag else mag
+
+/-- a rational as a decimal with ~34 significant digits, `d<int>e<exp>` (parsed by the harness as f64) -/
+def ratToSci (r : Rat) : String :=
+  if r == 0 then "d0e0" else
+  let n := r.num.natAbs
+  let d := r.den
+  let lg : Int := ((n.log2 : Int) - (d.log2 : Int)) * 30103 / 100000
+  let k : Int := 34 - lg
+  let m : Nat := if 0 ≤ k then n * 10 ^ k.toNat / d else n / (d * 10 ^ (-k).toNat)
+  (if r < 0 then "d-" else "d") ++ toString m ++ "e" ++ toString (-k)
+
+instance : Wire Rat where
+  rd := do
+    let t ← Reader.tok
+    match t.toList with
+    | 'x' :: rest => match parseHex rest with
+      | some n => pure (ratOfBits n)
+      | none => Reader.fail
+    | _ => Reader.fail
+  wr v := [ratToSci v]
+
 instance : Wire Nat where
   rd := do
     let t ← Reader.tok
